@@ -63,7 +63,15 @@ def process_sources(ctx, n):
     except Exception:
         tmpl = []
     for i in range(n):
-        k = rng.randrange(4)
+        k = rng.randrange(5)
+        if k == 4:
+            # a nilary loop driven by messages: the received value flows into the self tail call
+            msgs = rng.sample(["Tick", "Tock", "Add", "Nop"], rng.randint(1, 2))
+            arms = " ".join("| =%s[_] => ^" % m if rng.random() < 0.5 else "| =%s[x] => x ^" % m for m in msgs)
+            decl = " | ".join("%s['int]" % m for m in msgs)
+            out.append(("gen:proc-nilary-loop", "'m = Stop | %s, loop = #{ !#'m { | =Stop => Ok %s } }, p = @loop, %s, Stop p, !p" % (
+                decl, arms, ", ".join("%s[%d] p" % (m, j) for j, m in enumerate(msgs)))))
+            continue
         if k == 0 or not tmpl:
             # a server with several differently-typed receives in separate selects
             names = rng.sample(["Ping", "Pong", "Put", "Get", "Tick", "Stop"], rng.randint(2, 3))
